@@ -8,6 +8,8 @@ use vstd::string::StringSliceAdditionalSpecFns;
 
 verus! {
 
+global size_of usize == 8;   // ASSUMED: 64-bit target
+
 // ------------------------------------------------------------------ std items vstd lacks (ASSUMED)
 pub assume_specification<T: Copy>[ Option::<&T>::copied ](o: Option<&T>) -> (r: Option<T>)
     ensures r == (match o { Some(x) => Some(*x), None => None::<T> });
@@ -34,15 +36,37 @@ pub mod axioms {
         ensures #[trigger] s.spec_bytes().len() <= usize::MAX,
     {
     }
+
+    pub uninterp spec fn itoa_bytes(v: u64) -> Seq<u8>;
+    pub uninterp spec fn ryu_bytes(v: f64) -> Seq<u8>;
+    // ASSUMED (dependency contracts): decimal u64 is 1..=20 bytes, shortest round-trip f64 is 1..=24 bytes
+    #[verifier::external_body]
+    pub broadcast proof fn axiom_itoa_len(v: u64)
+        ensures 1 <= (#[trigger] itoa_bytes(v)).len() <= 20,
+    {
+    }
+    #[verifier::external_body]
+    pub broadcast proof fn axiom_ryu_len(v: f64)
+        ensures 1 <= (#[trigger] ryu_bytes(v)).len() <= 24,
+    {
+    }
+
+    // `remaining(it)`: the items the iterator will still yield, in order (uninterpreted; NOT vstd's prophetic
+    // IteratorSpec::remaining, whose prophecy typing forbids ghost-variable use). Linked to real data only through the shims.
+    pub uninterp spec fn remaining<I: Iterator>(it: &I) -> Seq<I::Item>;
+    /// the items `i.into_iter()` will yield
+    pub uninterp spec fn into_remaining<I: IntoIterator>(i: &I) -> Seq<I::Item>;
+    // ASSUMED (std: `impl<I: Iterator> IntoIterator for I` is the identity)
+    #[verifier::external_body]
+    pub broadcast proof fn axiom_iter_into_iter<I: Iterator>(it: &I)
+        ensures #[trigger] into_remaining(it) == remaining(it),
+    {
+    }
 }
-broadcast use axioms::axiom_str_len_fits;
+pub use axioms::{remaining, into_remaining};
+broadcast use {axioms::axiom_str_len_fits, axioms::axiom_iter_into_iter, axioms::axiom_itoa_len, axioms::axiom_ryu_len};
 
 // ------------------------------------------------------------------ iterator shims (R2), ASSUMED
-// `remaining(it)`: the items the iterator will still yield, in order (uninterpreted; NOT vstd's prophetic IteratorSpec::remaining,
-// whose prophecy typing forbids ghost-variable use). Linked to real data only through the shims below.
-pub uninterp spec fn remaining<I: Iterator>(it: &I) -> Seq<I::Item>;
-pub open spec fn into_remaining<I: Iterator>(it: &I) -> Seq<I::Item> { remaining(it) }
-
 // R2d: `S.iter()` -> `shim_slice_iter(S)`: a fresh slice iterator yields the slice's elements in order (std contract)
 #[verifier::external_body]
 pub fn shim_slice_iter<'a, T>(s: &'a [T]) -> (r: Iter<'a, T>)
@@ -51,12 +75,19 @@ pub fn shim_slice_iter<'a, T>(s: &'a [T]) -> (r: Iter<'a, T>)
     s.iter()
 }
 
-// the loops rewritten by R2 all iterate over values that already are iterators: IntoIterator::into_iter is the identity there
 #[verifier::external_body]
-pub fn shim_into_iter<I: Iterator>(i: I) -> (r: I)
+pub fn shim_into_iter<I: IntoIterator>(i: I) -> (r: I::IntoIter)
     ensures remaining(&r) == into_remaining(&i),
 {
     i.into_iter()
+}
+
+// R2e: `IT.len()` (ExactSizeIterator, a provided trait method) -> `shim_exact_len(&IT)`
+#[verifier::external_body]
+pub fn shim_exact_len<I: ExactSizeIterator>(it: &I) -> (r: usize)
+    ensures r == remaining(it).len(),
+{
+    it.len()
 }
 
 #[verifier::external_body]
@@ -93,8 +124,7 @@ impl Key {
     pub fn labels(&self) -> (r: Iter<'_, Label>) ensures into_remaining(&r) == self.label_seq() { unimplemented!() }
 }
 
-pub uninterp spec fn itoa_bytes(v: u64) -> Seq<u8>;
-pub uninterp spec fn ryu_bytes(v: f64) -> Seq<u8>;
+pub use axioms::{itoa_bytes, ryu_bytes};
 
 pub mod itoa {
     use super::*;
@@ -106,7 +136,7 @@ pub mod itoa {
         // ASSUMED: decimal rendering of a u64 is 1..=20 bytes
         #[verifier::external_body]
         pub fn format(&mut self, v: u64) -> (r: &str)
-            ensures str_bytes(r) == itoa_bytes(v), 1 <= itoa_bytes(v).len() <= 20,
+            ensures str_bytes(r) == itoa_bytes(v),
         { unimplemented!() }
     }
 }
@@ -120,7 +150,7 @@ pub mod ryu {
         // ASSUMED: shortest round-trip rendering of an f64 is 1..=24 bytes
         #[verifier::external_body]
         pub fn format(&mut self, v: f64) -> (r: &str)
-            ensures str_bytes(r) == ryu_bytes(v), 1 <= ryu_bytes(v).len() <= 24,
+            ensures str_bytes(r) == ryu_bytes(v),
         { unimplemented!() }
     }
 }
@@ -175,6 +205,64 @@ pub open spec fn trailer_bytes(rate: Option<f64>, tags: Seq<&Label>, ts: Option<
 
 pub open spec fn prefix_bytes(p: Option<&str>) -> Seq<u8> {
     match p { Some(x) => str_bytes(x) + seq![46u8], None => Seq::<u8>::empty() }
+}
+
+
+// ------------------------------------------------------------------ histogram / distribution wire format (specification)
+/// `:v0:v1:...`
+pub open spec fn values_bytes(vs: Seq<f64>) -> Seq<u8>
+    decreases vs.len(),
+{
+    if vs.len() == 0 { Seq::<u8>::empty() } else { values_bytes(vs.drop_last()) + seq![58u8] + ryu_bytes(vs.last()) }
+}
+
+/// one complete multi-value message: `<prefix.>name:v0:v1|<type><trailer>`
+pub open spec fn hist_line(head: Seq<u8>, vs: Seq<f64>, ty: u8, trailer: Seq<u8>) -> Seq<u8> {
+    head + values_bytes(vs) + seq![124u8, ty] + trailer
+}
+
+/// a value can be sent at all iff a message holding it alone fits
+pub open spec fn fits(v: f64, min_len: int, max: int) -> bool { min_len + ryu_bytes(v).len() + 1 <= max }
+
+/// the sub-sequence of input points that can be sent (order preserved)
+pub open spec fn kept(vs: Seq<f64>, min_len: int, max: int) -> Seq<f64>
+    decreases vs.len(),
+{
+    if vs.len() == 0 { Seq::<f64>::empty() }
+    else if fits(vs.last(), min_len, max) { kept(vs.drop_last(), min_len, max).push(vs.last()) }
+    else { kept(vs.drop_last(), min_len, max) }
+}
+
+pub open spec fn concat(cs: Seq<Seq<f64>>) -> Seq<f64>
+    decreases cs.len(),
+{
+    if cs.len() == 0 { Seq::<f64>::empty() } else { concat(cs.drop_last()) + cs.last() }
+}
+
+pub proof fn lemma_concat_len(cs: Seq<Seq<f64>>)
+    requires forall|j: int| 0 <= j < cs.len() ==> (#[trigger] cs[j]).len() > 0,
+    ensures concat(cs).len() >= cs.len(),
+    decreases cs.len(),
+{
+    if cs.len() > 0 {
+        assert forall|j: int| 0 <= j < cs.drop_last().len() implies (#[trigger] cs.drop_last()[j]).len() > 0 by { assert(cs.drop_last()[j] == cs[j]); }
+        lemma_concat_len(cs.drop_last());
+    }
+}
+
+pub proof fn lemma_kept_none(vs: Seq<f64>, min_len: int, max: int)
+    requires min_len + 2 > max,
+    ensures kept(vs, min_len, max).len() == 0,
+    decreases vs.len(),
+{
+    if vs.len() > 0 { lemma_kept_none(vs.drop_last(), min_len, max); }
+}
+
+pub proof fn lemma_kept_len(vs: Seq<f64>, min_len: int, max: int)
+    ensures kept(vs, min_len, max).len() <= vs.len(),
+    decreases vs.len(),
+{
+    if vs.len() > 0 { lemma_kept_len(vs.drop_last(), min_len, max); }
 }
 
 //@ITEM file=metrics-exporter-dogstatsd/src/writer.rs sel=fn write_metric_trailer
@@ -409,6 +497,19 @@ impl PayloadWriter {
         &&& self.buf@.subrange(0, o.last() + o.plen()) == o.buf@.subrange(0, o.last() + o.plen())
     }
 
+    /// appending bytes to the buffer only extends the uncommitted tail
+    proof fn lemma_append(&self, o: &PayloadWriter, x: Seq<u8>)
+        requires o.wf(), self.offsets@ == o.offsets@, self.max_payload_len == o.max_payload_len,
+            self.with_length_prefix == o.with_length_prefix, self.buf@ == o.buf@ + x,
+        ensures self.wf(), self.tail() == o.tail() + x, self.nframes() == o.nframes(),
+            forall|i: int| 0 <= i < o.nframes() ==> #[trigger] self.frame(i) == o.frame(i),
+            forall|i: int| 0 <= i < o.nframes() ==> #[trigger] self.payload(i) == o.payload(i),
+    {
+        assert(self.buf@.subrange(0, o.last() + o.plen()) =~= o.buf@.subrange(0, o.last() + o.plen()));
+        self.lemma_same_frames(o);
+        assert(self.tail() =~= o.tail() + x);
+    }
+
     proof fn lemma_same_frames(&self, o: &PayloadWriter)
         requires o.wf(), self.same_frames(o),
         ensures self.wf(), forall|i: int| 0 <= i < o.nframes() ==> #[trigger] self.frame(i) == o.frame(i),
@@ -474,6 +575,235 @@ impl PayloadWriter {
             assert(self.tail() =~= line);
         }
 //@END
+
+//@ITEM file=metrics-exporter-dogstatsd/src/writer.rs sel=impl PayloadWriter :: fn write_gauge ret=r
+//@SPEC
+    requires old(self).wf(), old(self).tail().len() == 0,
+    ensures
+        final(self).wf(), final(self).tail().len() == 0,
+        final(self).max_payload_len == old(self).max_payload_len,
+        final(self).with_length_prefix == old(self).with_length_prefix,
+        forall|i: int| 0 <= i < old(self).nframes() ==> #[trigger] final(self).frame(i) == old(self).frame(i),
+        ({
+            let line = prefix_bytes(prefix) + key.name_bytes() + seq![58u8] + ryu_bytes(value) + lit2(124, 103)
+                + trailer_bytes(None, refs(global_labels@) + key.label_seq(), timestamp);
+            if line.len() <= old(self).max_payload_len {
+                r.payloads_written == 1 && r.points_dropped == 0 && final(self).nframes() == old(self).nframes() + 1
+                    && final(self).payload(old(self).nframes()) == line
+            } else {
+                r.payloads_written == 0 && r.points_dropped == 1 && final(self).nframes() == old(self).nframes()
+            }
+        }),
+//@BEFORE 1 if self.commit() {
+        let ghost pre = *self;
+        proof {
+            let line = prefix_bytes(prefix) + key.name_bytes() + seq![58u8] + ryu_bytes(value) + lit2(124, 103)
+                + trailer_bytes(None, refs(global_labels@) + key.label_seq(), timestamp);
+            assert(self.buf@ =~= old(self).buf@ + line);
+            assert(self.buf@.subrange(0, old(self).last() + old(self).plen()) =~= old(self).buf@.subrange(0, old(self).last() + old(self).plen()));
+            self.lemma_same_frames(old(self));
+            assert(self.tail() =~= line);
+        }
+//@END
+
+    /// everything the property says about one write_histogram / write_distribution call, for a witness chunking
+    spec fn hist_post(pre: &PayloadWriter, post: &PayloadWriter, chunks: Seq<Seq<f64>>, r: WriteResult, key: &Key, vals: Seq<f64>,
+                      ty: u8, rate: Option<f64>, prefix: Option<&str>, gl: &[Label]) -> bool {
+        let tr = trailer_bytes(rate, refs(gl@) + key.label_seq(), None);
+        let head = prefix_bytes(prefix) + key.name_bytes();
+        let min_len = head.len() + tr.len() + 2;
+        let sent = kept(vals, min_len as int, pre.max_payload_len as int);
+        &&& concat(chunks) == sent                                   // every sendable point is in exactly one payload, in order
+        &&& r.points_dropped == vals.len() - sent.len()              // every other point is reported dropped
+        &&& r.payloads_written == chunks.len()
+        &&& post.nframes() == pre.nframes() + chunks.len()
+        &&& forall|j: int| 0 <= j < chunks.len() ==> (#[trigger] chunks[j]).len() > 0
+        &&& forall|j: int| 0 <= j < chunks.len() ==> #[trigger] post.payload(pre.nframes() + j) == hist_line(head, chunks[j], ty, tr)
+    }
+
+//@ITEM file=metrics-exporter-dogstatsd/src/writer.rs sel=impl PayloadWriter :: fn write_hist_dist_inner ret=r
+//@REWRITE R2 let values = values.into_iter(); ==> let values = shim_into_iter(values);
+//@REWRITE R2d global_labels.iter() ==> shim_slice_iter(global_labels)
+//@REWRITE R2e values.len() ==> shim_exact_len(&values)
+//@FORLOOP 1 it
+//@SPEC
+    requires
+        old(self).wf(), old(self).tail().len() == 0,
+        // machine arithmetic: metadata sizes are assumed far below usize::MAX (they are in-memory buffers)
+        prefix_bytes(prefix).len() + key.name_bytes().len() + trailer_bytes(maybe_sample_rate, refs(global_labels@) + key.label_seq(), None).len() + 64 <= usize::MAX,
+        into_remaining(&values).len() <= usize::MAX,   // ExactSizeIterator: the length is a usize
+    ensures
+        final(self).wf(), final(self).tail().len() == 0,
+        final(self).max_payload_len == old(self).max_payload_len,
+        final(self).with_length_prefix == old(self).with_length_prefix,
+        forall|i: int| 0 <= i < old(self).nframes() ==> #[trigger] final(self).frame(i) == old(self).frame(i),
+        exists|chunks: Seq<Seq<f64>>| Self::hist_post(old(self), final(self), chunks, r, key, into_remaining(&values), metric_type, maybe_sample_rate, prefix, global_labels),
+//@AFTER 1 let values = shim_into_iter(values);
+        let ghost vals = remaining(&values);
+        let ghost old_n = old(self).nframes();
+        let ghost tr = trailer_bytes(maybe_sample_rate, refs(global_labels@) + key.label_seq(), None);
+        let ghost head = prefix_bytes(prefix) + key.name_bytes();
+        let ghost true_min = (head.len() + tr.len() + 2) as int;
+        let ghost max = self.max_payload_len as int;
+        let ghost mut chunks: Seq<Seq<f64>> = Seq::empty();
+        let ghost mut cur: Seq<f64> = Seq::empty();
+//@BEFORE 1 let minimum_payload_len =
+        proof {
+            assert(self.trailer_buf@ =~= tr);
+            assert(self.buf@ == old(self).buf@);
+        }
+//@BEFORE 1 return WriteResult::failure(
+            proof {
+                lemma_kept_none(vals, true_min, max);
+                assert(concat(chunks) =~= kept(vals, true_min, max));
+                assert(self.tail() =~= old(self).tail());
+                self.lemma_same_frames(old(self));
+                let r0 = WriteResult { payloads_written: 0, points_dropped: vals.len() as u64 };
+                assert(Self::hist_post(old(self), self, chunks, r0, key, vals, metric_type, maybe_sample_rate, prefix, global_labels));
+            }
+//@BEFORE 1 let mut needs_name = true;
+        proof { self.lemma_same_frames(old(self)); assert(self.tail() =~= old(self).tail()); assert(vals.take(0) =~= Seq::<f64>::empty()); }
+//@LOOP 1
+            invariant
+                self.wf(),
+                self.max_payload_len == old(self).max_payload_len, self.with_length_prefix == old(self).with_length_prefix,
+                max == self.max_payload_len,
+                self.trailer_buf@ == tr,
+                tr == trailer_bytes(maybe_sample_rate, refs(global_labels@) + key.label_seq(), None),
+                head == prefix_bytes(prefix) + key.name_bytes(),
+                true_min == head.len() + tr.len() + 2,
+                old_n == old(self).nframes(),
+                remaining(&it).len() <= vals.len(),
+                remaining(&it) == vals.skip(vals.len() - remaining(&it).len()),
+                concat(chunks) + cur == kept(vals.take(vals.len() - remaining(&it).len()), true_min, max),
+                result.points_dropped == (vals.len() - remaining(&it).len()) - (concat(chunks) + cur).len(),
+                result.payloads_written == chunks.len(),
+                forall|j: int| 0 <= j < chunks.len() ==> (#[trigger] chunks[j]).len() > 0,
+                self.nframes() == old_n + chunks.len(),
+                forall|j: int| 0 <= j < chunks.len() ==> #[trigger] self.payload(old_n + j) == hist_line(head, chunks[j], metric_type, tr),
+                forall|i: int| 0 <= i < old_n ==> #[trigger] self.frame(i) == old(self).frame(i),
+                needs_name == (cur.len() == 0),
+                self.tail() == (if cur.len() == 0 { Seq::<u8>::empty() } else { head + values_bytes(cur) }),
+                current_len == true_min + values_bytes(cur).len(),
+                minimum_payload_len == true_min,
+                current_len <= max,
+                true_min + 2 <= max,
+                vals.len() <= usize::MAX,
+            ensures remaining(&it).len() == 0,
+            decreases remaining(&it).len(),
+//@BEFORE 1 let value_str = float_writer.format(value);
+            let ghost k = vals.len() - remaining(&it).len() - 1;
+            proof {
+                assert(value == vals[k]);
+                assert(vals.take(k + 1).drop_last() =~= vals.take(k));
+                assert(vals.take(k + 1).last() == value);
+                lemma_kept_len(vals.take(k), true_min, max);
+                lemma_concat_len(chunks);
+            }
+//@BEFORE 1 if minimum_payload_len + value_str.len() + 1 > self.max_payload_len {
+            proof {
+                assert(value_str.len() == ryu_bytes(value).len());
+                assert(ryu_bytes(value).len() <= 24);
+                assert(minimum_payload_len <= u32::MAX);
+                assert(current_len <= u32::MAX);
+            }
+//@BEFORE 1 self.buf.push(b'|');
+                let ghost pre = *self;
+//@BEFORE 1 assert!(self.commit(),
+                proof {
+                    assert(self.buf@ =~= pre.buf@ + (seq![124u8, metric_type] + tr));
+                    self.lemma_append(&pre, seq![124u8, metric_type] + tr);
+                    assert(self.tail() =~= hist_line(head, cur, metric_type, tr));
+                    assert(hist_line(head, cur, metric_type, tr).len() == head.len() + values_bytes(cur).len() + 2 + tr.len());
+                    assert(self.tail().len() == current_len);
+                }
+                let ghost pre2 = *self;
+//@AFTER 1 assert!(self.commit(),
+                proof {
+                    assert forall|j: int| 0 <= j < chunks.len() implies #[trigger] self.payload(old_n + j) == hist_line(head, chunks[j], metric_type, tr) by {
+                        assert(self.frame(old_n + j) == pre2.frame(old_n + j));
+                        assert(pre2.frame(old_n + j) == pre.frame(old_n + j));
+                        assert(pre.payload(old_n + j) == hist_line(head, chunks[j], metric_type, tr));
+                    }
+                    assert forall|i: int| 0 <= i < old_n implies #[trigger] self.frame(i) == old(self).frame(i) by {
+                        assert(self.frame(i) == pre2.frame(i));
+                        assert(pre2.frame(i) == pre.frame(i));
+                    }
+                    assert(self.payload(old_n + chunks.len()) == hist_line(head, cur, metric_type, tr));
+                    let chunks2 = chunks.push(cur);
+                    assert(chunks2.drop_last() =~= chunks);
+                    assert(concat(chunks2) =~= concat(chunks) + cur);
+                    assert forall|j: int| 0 <= j < chunks2.len() implies #[trigger] self.payload(old_n + j) == hist_line(head, chunks2[j], metric_type, tr) by {
+                        if j < chunks.len() { assert(chunks2[j] == chunks[j]); }
+                    }
+                    chunks = chunks2;
+                    cur = Seq::<f64>::empty();
+                    assert(values_bytes(cur).len() == 0);
+                }
+//@BEFORE 1 if needs_name {
+            let ghost pre3 = *self;
+//@BEFORE 1 current_len += value_str.len() + 1;
+            proof {
+                let cur2 = cur.push(value);
+                assert(cur2.drop_last() =~= cur);
+                let added = (if cur.len() == 0 { head } else { Seq::<u8>::empty() }) + seq![58u8] + ryu_bytes(value);
+                if cur.len() == 0 {
+                    match prefix {
+                        Some(p) => { assert(head =~= str_bytes(p) + seq![46u8] + key.name_bytes()); }
+                        None => { assert(head =~= key.name_bytes()); }
+                    }
+                    assert(self.buf@ =~= pre3.buf@ + head + seq![58u8] + ryu_bytes(value));
+                } else {
+                    assert(self.buf@ =~= pre3.buf@ + seq![58u8] + ryu_bytes(value));
+                }
+                assert(self.buf@ =~= pre3.buf@ + added);
+                self.lemma_append(&pre3, added);
+                assert(self.tail() =~= head + values_bytes(cur2));
+                assert((concat(chunks) + cur).push(value) =~= concat(chunks) + cur2);
+                cur = cur2;
+            }
+//@BEFORE 1 if self.current_len() != 0 {
+        proof { assert(vals.take(vals.len() as int) =~= vals); lemma_concat_len(chunks); lemma_kept_len(vals, true_min, max); }
+//@BEFORE 2 self.buf.push(b'|');
+            let ghost pre = *self;
+//@BEFORE 2 assert!(self.commit(),
+            proof {
+                assert(self.buf@ =~= pre.buf@ + (seq![124u8, metric_type] + tr));
+                self.lemma_append(&pre, seq![124u8, metric_type] + tr);
+                assert(self.tail() =~= hist_line(head, cur, metric_type, tr));
+                assert(hist_line(head, cur, metric_type, tr).len() == head.len() + values_bytes(cur).len() + 2 + tr.len());
+                assert(self.tail().len() == current_len);
+            }
+            let ghost pre2 = *self;
+//@AFTER 2 assert!(self.commit(),
+            proof {
+                assert forall|j: int| 0 <= j < chunks.len() implies #[trigger] self.payload(old_n + j) == hist_line(head, chunks[j], metric_type, tr) by {
+                    assert(self.frame(old_n + j) == pre2.frame(old_n + j));
+                    assert(pre2.frame(old_n + j) == pre.frame(old_n + j));
+                    assert(pre.payload(old_n + j) == hist_line(head, chunks[j], metric_type, tr));
+                }
+                assert forall|i: int| 0 <= i < old_n implies #[trigger] self.frame(i) == old(self).frame(i) by {
+                    assert(self.frame(i) == pre2.frame(i));
+                    assert(pre2.frame(i) == pre.frame(i));
+                }
+                assert(self.payload(old_n + chunks.len()) == hist_line(head, cur, metric_type, tr));
+                let chunks2 = chunks.push(cur);
+                assert(chunks2.drop_last() =~= chunks);
+                assert(concat(chunks2) =~= concat(chunks) + cur);
+                assert forall|j: int| 0 <= j < chunks2.len() implies #[trigger] self.payload(old_n + j) == hist_line(head, chunks2[j], metric_type, tr) by {
+                    if j < chunks.len() { assert(chunks2[j] == chunks[j]); }
+                }
+                chunks = chunks2;
+                cur = Seq::<f64>::empty();
+            }
+//@BEFORE 1 =result
+        proof {
+            assert(cur.len() == 0);
+            assert(concat(chunks) + cur =~= concat(chunks));
+            assert(Self::hist_post(old(self), self, chunks, result, key, vals, metric_type, maybe_sample_rate, prefix, global_labels));
+        }
+//@END
+
 
 }
 
